@@ -222,4 +222,39 @@ def stepOp (A : DbAlg D) (s : CS D) : COp D → CS D × String
 
 def runOps (A : DbAlg D) (s : CS D) (ops : List (COp D)) : CS D := ops.foldl (fun s o => (stepOp A s o).1) s
 
+/-! ### side conditions of the catalog theorems, executable (C09 `OpOK'`; the correspondence run asks the
+model whether every generated operation is inside the proven domain) -/
+
+/-- ordering key of a snapshot directory: (term, index, name) -/
+def keyOf (n : Nat) (d : Dir D) : Nat × Nat × Nat :=
+  match d.mt with
+  | some m => (m.term, m.index, n)
+  | none => (0, 0, n)
+
+def keyLe (a b : Nat × Nat × Nat) : Prop :=
+  a.1 < b.1 ∨ (a.1 = b.1 ∧ (a.2.1 < b.2.1 ∨ (a.2.1 = b.2.1 ∧ a.2.2 ≤ b.2.2)))
+
+instance (a b : Nat × Nat × Nat) : Decidable (keyLe a b) := by unfold keyLe; exact inferInstance
+
+def allClosed (s : CS D) : Bool := s.sinks.all fun p => !p.2.opened
+
+def okB (s : CS D) : COp D → Bool
+  | .create _ name index term =>
+    (s.fs.dir name).isNone && allClosed s && !s.fs.names.contains name &&
+    s.fs.names.all fun n =>
+      match s.fs.dir n with
+      | some d => d.tmp || decide (keyLe (keyOf n d) (term, index, name))
+      | none => true
+  | .wfull _ _ ws _ => decide ws.Nodup
+  | .winc _ ws => !ws.isEmpty && decide ws.Nodup
+  | .crashClose h _ =>
+    match getSink s h with
+    | none => true
+    | some k => k.opened && (match k.hdr with
+      | .inc _ => !s.fs.fullNeeded
+      | _ => true)
+  | .reap nn => allClosed s && (s.fs.dir nn).isNone && !s.fs.names.contains nn
+  | _ => true
+
+
 end RqModel.SnapCat
